@@ -222,9 +222,11 @@ def gen_unit(rng, stream="main"):
         return gen_sweep_unit(rng)
     surrogates_ok = rng.random() < 0.3
     atoms = gen.soup(rng, surrogates_ok=surrogates_ok)
-    huge = rng.random() < 0.006
+    rh = rng.random()
+    huge = rh < 0.006
+    giant = rh < 0.0006
     if huge:
-        atoms = gen.make_huge(rng)
+        atoms = gen.make_huge(rng, giant)
     r0 = rng.random() if not huge else 1.0
     if r0 < 0.02:
         atoms = [""]                       # the empty document (a BOM may still precede it)
@@ -242,10 +244,13 @@ def gen_unit(rng, stream="main"):
         encs[0] = rng.choice(["utf-8", "utf-16le", "utf-16be", "shift_jis", "gb18030", "big5", "euc-jp", "euc-kr",
                               "iso-2022-jp", "gbk"])
     cases = []
-    n_deliv = rng.randint(6, 10)
+    n_deliv = rng.randint(6, 10) if not giant else 4
     for _ in range(n_deliv):
         if surr:
             kind = rng.choice(["str", "stringio", "simtext", "simtext"])
+        elif giant:
+            kind = rng.choice(["simbytes_noseek", "simbytes_noseek", "http_plain", "http_chunked", "simbytes_seekraises", "simtext", "bytesio",
+                               "simbytes_seek"])
         else:
             kind = rng.choice(["str", "stringio", "textwrapper", "simtext", "simtext", "simtext",
                                "bytes", "bytesio", "simbytes_seek", "simbytes_seek", "simbytes_noseek",
@@ -267,7 +272,14 @@ def gen_unit(rng, stream="main"):
         if huge:
             # keep the cost of a 100 KB document bounded: no tiny chunks, no 1-item reads
             case["chunk"] = rng.choice([1000, 1024, 4096, 10240, 10240, 30000, max(1, len(chars) - 1), len(chars) // 2 + 1])
-        if kind in sources.SIM_KINDS and huge:
+        if giant:
+            case["chunk"] = rng.choice([4096, 10240, 10240, 30000, 65536])
+        if kind in sources.SIM_KINDS and giant:
+            # socket-like: hundreds of reads of varying size all the way through the document
+            case["src"] = {"reads": [rng.choice([536, 1460, 2920, 4096, 8192, rng.randint(1, 70000)]) for _ in range(rng.randint(300, 700))],
+                           "rest": rng.choice([1 << 30, 1460, 8192, 65536, 10240])}
+            case["strategy"] = "giant"
+        elif kind in sources.SIM_KINDS and huge:
             case["src"] = {"reads": [rng.randint(1, 20000) for _ in range(rng.randint(0, 6))], "rest": rng.choice([1 << 30, 1500, 8192, 65536])}
             case["strategy"] = "huge"
         elif kind in sources.SIM_KINDS:
